@@ -216,6 +216,33 @@ def sleeps_first(fn):
     raise Untranslatable("the sleep is neither first nor last")
 
 
+def guard_shape():
+    """`exclusive()` of runners/guard.py: the wrapped call is made iff a *non-blocking* acquire of the
+    guard succeeds, the guard is released in the `finally` of exactly that call (and nowhere else), and
+    the other branch only raises RuntimeError"""
+    from cobald.daemon.runners import guard
+    tree = ast.parse(textwrap.dedent(inspect.getsource(guard.exclusive)))
+    fn = next((n for n in ast.walk(tree) if isinstance(n, ast.FunctionDef) and n.name == "exclusive_call"), None)
+    if fn is None:
+        raise Untranslatable("no exclusive_call")
+    stmts = [st for st in fn.body if not (isinstance(st, ast.Expr) and isinstance(st.value, ast.Constant))]
+    if len(stmts) != 1 or not isinstance(stmts[0], ast.If):
+        raise Untranslatable("body is not one if/else")
+    top = stmts[0]
+    if ast.unparse(top.test) != "fnc_guard.acquire(blocking=False)":
+        raise Untranslatable("condition %s" % ast.unparse(top.test))
+    if not (len(top.body) == 1 and isinstance(top.body[0], ast.Try) and not top.body[0].handlers and not top.body[0].orelse):
+        raise Untranslatable("the admitted branch is not try/finally")
+    tr = top.body[0]
+    if [ast.unparse(x) for x in tr.body] != ["return fnc(*args, **kwargs)"] or [ast.unparse(x) for x in tr.finalbody] != ["fnc_guard.release()"]:
+        raise Untranslatable("try/finally: %s / %s" % ([ast.unparse(x) for x in tr.body], [ast.unparse(x) for x in tr.finalbody]))
+    if not (len(top.orelse) == 1 and isinstance(top.orelse[0], ast.Raise) and ast.unparse(top.orelse[0].exc).startswith("RuntimeError(")):
+        raise Untranslatable("the rejecting branch: %s" % [ast.unparse(x) for x in top.orelse])
+    if sum(1 for n in ast.walk(fn) if isinstance(n, ast.Attribute) and n.attr in ("release", "acquire")) != 2:
+        raise Untranslatable("the guard is touched elsewhere")
+    return "true"
+
+
 def strs_lean(l):
     return "[" + ", ".join('"%s"' % x.replace("\\", "\\\\").replace('"', '\\"') for x in l) + "]"
 
@@ -243,7 +270,7 @@ def render():
     from cobald.controller.relative_supply import RelativeSupplyController
     from cobald.monitor import format_line
     out = ["/- GENERATED by harness/vh/translate.py from the source text of /repo — do not edit.",
-           "   Regenerated on every run of the checks that depend on it (C06 C08 C09 C13 C15 C17); the theorems `gen_*` in",
+           "   Regenerated on every run of the checks that depend on it (C06 C08 C09 C12 C13 C15 C17); the theorems `gen_*` in",
            "   their Props files equate these definitions with the hand-written models and are thereby",
            "   re-checked against what the code says now. -/",
            "import CobaldVerif.Model.Num", "", "namespace Cobald.Gen", "open Cobald Cobald.ERat", ""]
@@ -276,6 +303,7 @@ def render():
     emit("escapeKeyPairs", "", "List (Char × List Char)", lambda: chain_of(format_line.escape_key, 0, 1))
     emit("escapeFieldPairs", "", "List (Char × List Char)", lambda: chain_of(format_line.escape_field, 0, 1))
     emit("escapeNamePairs", "", "List (Char × List Char)", lambda: chain_of(format_line.line_protocol, 0, 1))
+    emit("guardShape", "", "Bool", guard_shape)
     from cobald.composite.factory import FactoryPool
     from cobald.controller.switch import DemandSwitch
     from cobald.controller.stepwise import Stepwise
